@@ -23,7 +23,7 @@ ID = "C20"
 TITLE = "JSON serialisation is lossless and the CLI reports exactly the library's tree"
 
 ALPHA = (b"a", b'"', b"\x00")
-LABELS = ["", "x", "vba.string", "é/>\"\\\n", "☃", "a b", ">"]
+LABELS = ["", "x", "vba.string", "é/>\"\\\n", "☃", "a b", ">", "k\udcff", "\U0001f600", "\x00\x7f"]
 BLOCKS = {
     "quick": [dict(maxlen=2, maxk=2, depth=1, gk=1, types=("", "s"), gtypes=("",))],
     "thorough": [dict(maxlen=3, maxk=2, depth=1, gk=1, types=("", "s", "x"), gtypes=("", "s"))],
@@ -83,6 +83,7 @@ def plan(tier, seed):
                     continue  # short flags are exercised with the cheap keyword options only
                 units.append(("cli", src, mode, kw))
     units += [("subprocess", mode) for mode in ("default", "--json", "--replace")]
+    units += [("encodings", enc) for enc in ("utf-8", "latin-1", "ascii", "cp1252")]
     return units
 
 
@@ -121,6 +122,11 @@ def check_json(rec, root, w, size, mutate=False):
     rec.count("evaluations")
     ok, text = rec.guard("C20.json.encode", w, size, jc.tree_to_json, root)
     if not ok:
+        return
+    try:
+        text.encode("utf-8")
+    except UnicodeEncodeError as e:
+        rec.violation("C20.json.valid", "json-not-utf8-encodable", w, f"tree_to_json produced text that cannot be written as UTF-8 (JSON is UTF-8 text): {e}", size)
         return
     try:
         obj = json.loads(text)
@@ -331,6 +337,47 @@ def run_subprocess_unit(rec, mode):
         shutil.rmtree(tmp, ignore_errors=True)
 
 
+def run_encodings_unit(rec, enc):
+    """--json through a real process whose stdout uses `enc`, with a keyword directory whose file names are not ASCII: the output must still
+    be the encoding of the library's tree."""
+    tmp = tempfile.mkdtemp(prefix="c20enc")
+    try:
+        names = ["\u043a\u043b\u044e\u0447", "caf\u00e9.name", "plain"]
+        for i, nme in enumerate(names):
+            with open(os.path.join(tmp, nme), "wb") as f:
+                f.write(b"word%d\nWord%d\n" % (i, i))
+        data = b"see word0 and WORD1 and word2 here"
+        md = Multidecoder(build_registry(tmp))
+        exp = jc.tree_to_json(md.scan(data))
+        for src in ("file", "stdin"):
+            env = dict(os.environ, PYTHONIOENCODING=enc)
+            argv = [sys.executable, "-m", "multidecoder", "--json", "--keywords", tmp]
+            w = {"kind": "encodings", "encoding": enc, "src": src}
+            rec.count("evaluations")
+            rec.mark("states", ("enc", enc, src), True)
+            path = tmp + ".in"  # outside the keyword directory
+            with open(path, "wb") as f:
+                f.write(data)
+            r = subprocess.run(argv + [path], capture_output=True, env=env, timeout=120) if src == "file" else subprocess.run(argv, input=data, capture_output=True, env=env, timeout=120)
+            rec.count("traces")
+            rec.mark("nontrivial", ("enc", enc, src), True)
+            if r.returncode != 0:
+                rec.violation("C20.cli.total", f"cli-fails-under-stdout-encoding|{enc}", w, f"python -m multidecoder --json with stdout encoding {enc} exited {r.returncode}: {core.short(r.stderr, 200)}", 1)
+                continue
+            try:
+                got = json.loads(r.stdout.decode(enc))
+            except (ValueError, UnicodeDecodeError) as e:
+                rec.violation("C20.cli.json", f"cli-json-invalid-under-encoding|{enc}", w, f"--json output under stdout encoding {enc} is not JSON: {e}", 1)
+                continue
+            if got != json.loads(exp):
+                rec.violation("C20.cli.json", f"cli-json-differs-under-encoding|{enc}", w, "--json output differs from tree_to_json(scan)", 1)
+        rec.sample({"stdout_encoding": enc, "keyword_file_names": names})
+    finally:
+        shutil.rmtree(tmp, ignore_errors=True)
+        if os.path.exists(tmp + ".in"):
+            os.unlink(tmp + ".in")
+
+
 def stream_monitor(rec, case):
     check_json(rec, case.tree, case.witness(), case.size, mutate=True)
     if case.tree.children:
@@ -388,6 +435,8 @@ def run_unit(unit, rec):
         run_cli_unit(rec, unit[1], unit[2], unit[3])
     elif kind == "subprocess":
         run_subprocess_unit(rec, unit[1])
+    elif kind == "encodings":
+        run_encodings_unit(rec, unit[1])
 
 
 def replay(w, rec):
@@ -405,5 +454,7 @@ def replay(w, rec):
         run_cli_unit(rec, w["src"], w["mode"], w["kw"])
     elif k == "subprocess":
         run_subprocess_unit(rec, w["mode"])
+    elif k == "encodings":
+        run_encodings_unit(rec, w["encoding"])
     elif w.get("engine") == "stream":
         streams.replay(w, rec, stream_monitor)
